@@ -76,14 +76,11 @@ Theorem C17_window_leak_on_mmap_failure_witness :
   snd (run_op Debug o demo_region (XRefLoad 8 4)) = RPanic.
 Proof. exact window_leak_on_mmap_failure_lemma. Qed.
 
-(* F6a (candidate finding, confirmed on the real code by suite C17xenfind): a zero-length guard at a
-   page-aligned offset of an on-demand region asks the device for 0 grants, is refused, and the Err
-   is unwrapped - the access panics; at an offset that is not page aligned it works *)
-Theorem C17_zero_len_guard_panics_witness :
-  run_op Debug demo_os demo_region (XSliceGuard 4096 0 false) = ([EvIoctlMap 65 0 266240 false], RPanic) /\
-  (exists w, run_op Debug demo_os demo_region (XSliceGuard 4100 0 false) =
-             (fst (run_op Debug demo_os demo_region (XSliceGuard 4100 0 false)), RDone (Some w))).
-Proof. exact zero_len_guard_panics_lemma. Qed.
+(* F6a - repaired (fix: commit in /repo, see known_findings.txt): before the fix a zero-length guard at a
+   page-aligned offset of an on-demand region asked the device for 0 grants, was refused, and the Err was
+   unwrapped (panic).  Now an empty range maps nothing and completes, at every offset of every region. *)
+Theorem C17_zero_len_guard_noop : forall m o g off wr, guarded m o g off 0 wr = ([], Val None).
+Proof. exact zero_len_guard_noop_lemma. Qed.
 
 (* F6b (candidate finding, confirmed by suite C17xenfind): get_atomic_ref (Bytes::load/store) and
    copy_to_volatile_slice dereference the null-based address of an on-demand region without a guard:
@@ -109,5 +106,5 @@ Print Assumptions C17_window_covers.
 Print Assumptions C17_access_inside_window.
 Print Assumptions C17_windows_released.
 Print Assumptions C17_window_leak_on_mmap_failure_witness.
-Print Assumptions C17_zero_len_guard_panics_witness.
+Print Assumptions C17_zero_len_guard_noop.
 Print Assumptions C17_unguarded_refuted.
